@@ -50,6 +50,7 @@ package values
 
 //@ func (values.Range).AsArray
 //@ props C11 C15 C01
+//@ assigns alloc S$Val
 //@ ensures length: len(result) == max(0, r.e - r.b + 1)
 //@ ensures elems: forall(k, 0, len(result), result[k] == box(r.b + k))
 //@ loop 1 invariant idx: r.b <= i && i <= max(r.e + 1, r.b)
@@ -394,7 +395,7 @@ package values
 //@ assigns alloc S$RV
 //@ ensures fresh: fresh(result) || len(result) == 0
 //@ ensures count: len(result) == pl_len(rv_val(rv))
-//@ ensures keys: forall(i, 0, len(result), rv_valid(result[i]) && pl_mhas(rv_val(rv), rv_val(result[i])) && (rv_iface(result[i]) || tassignable(typeof(rv_val(result[i])), tkey(typeof(rv_val(rv))))))
+//@ ensures keys: forall(i, 0, len(result), rv_valid(result[i]) && pl_mhas(rv_val(rv), rv_val(result[i])) && (rv_iface(result[i]) || (rv_val(result[i]) != nil && tassignable(typeof(rv_val(result[i])), tkey(typeof(rv_val(rv)))))))
 //@ ensures sorted: forall(i, 1, len(result), !(values.Less(rv_val(result[i]), rv_val(result[i-1])) || (!values.Less(rv_val(result[i-1]), rv_val(result[i])) && sprint1(rv_val(result[i])) < sprint1(rv_val(result[i-1])))))
 
 // ---- Drops (C18) -------------------------------------------------------------------------
@@ -473,11 +474,13 @@ package values
 //@ props C01 C02
 //@ panics nothing
 //@ requires typ: typ != 0
+//@ assigns alloc S$Val, alloc S$Slc, alloc S$Int, alloc S$Str, alloc S$RV
+//@ ensures value: result1 == nil ==> result0 != nil
 //@ at call SortedMapKeys #1 before assert mapOrder: kindof(typ) == reflect.Slice
 //@ loop 1 invariant result: rv_valid(result) && !rv_iface(result) && typeof(rv_val(result)) == typ
 //@ loop 2 invariant result: rv_valid(result) && !rv_iface(result) && typeof(rv_val(result)) == typ
-//@ loop 2 invariant keys: forall(j, 0, len(_r), rv_valid(_r[j]) && pl_mhas(rv_val(rv), rv_val(_r[j])) && (rv_iface(_r[j]) || tassignable(typeof(rv_val(_r[j])), tkey(typeof(rv_val(rv))))))
+//@ loop 2 invariant keys: forall(j, 0, len(_r), rv_valid(_r[j]) && pl_mhas(rv_val(rv), rv_val(_r[j])) && (rv_iface(_r[j]) || (rv_val(_r[j]) != nil && tassignable(typeof(rv_val(_r[j])), tkey(typeof(rv_val(rv)))))))
 //@ loop 3 invariant result: rv_valid(result) && !rv_iface(result) && typeof(rv_val(result)) == typ
 //@ loop 4 invariant result: rv_valid(result) && !rv_iface(result) && typeof(rv_val(result)) == typ
 //@ loop 5 invariant result: rv_valid(result) && !rv_iface(result) && typeof(rv_val(result)) == typ
-//@ loop 5 invariant keys: forall(j, 0, len(_r), rv_valid(_r[j]) && pl_mhas(rv_val(rv), rv_val(_r[j])) && (rv_iface(_r[j]) || tassignable(typeof(rv_val(_r[j])), tkey(typeof(rv_val(rv))))))
+//@ loop 5 invariant keys: forall(j, 0, len(_r), rv_valid(_r[j]) && pl_mhas(rv_val(rv), rv_val(_r[j])) && (rv_iface(_r[j]) || (rv_val(_r[j]) != nil && tassignable(typeof(rv_val(_r[j])), tkey(typeof(rv_val(rv)))))))
